@@ -419,7 +419,7 @@ class Chipset(object):
     def in_data_exchange(self, data, timeout, more=False):
         data = self.command(0x40, bytearray([int(more) << 6 | 0x01]) + data,
                             timeout)
-        if data is None or data[0] & 0x3f != 0:
+        if not data or data[0] & 0x3f != 0:
             self.chipset_error(data[0] & 0x3f if data else None)
         return data[1:], bool(data[0] & 0x40)
 
@@ -438,7 +438,7 @@ class Chipset(object):
 
     def tg_get_data(self, timeout):
         data = self.command(0x86, b'', timeout)
-        if data is None or data[0] & 0x3f != 0:
+        if not data or data[0] & 0x3f != 0:
             self.chipset_error(data[0] & 0x3f if data else None)
         return data[1:], bool(data[0] & 0x40)
 
@@ -1027,6 +1027,9 @@ class Device(device.Device):
             if commirq & 0b00100000:
                 self.chipset.write_register("CIU_CommIRq", 0b00100000)
                 fifo_size = self.chipset.read_register("CIU_FIFOLevel")
+                if fifo_size < 2:
+                    info = "insufficient data in receive fifo"
+                    raise nfc.clf.TransmissionError(info)
                 fifo_read = fifo_size * ["CIU_FIFOData"]
                 fifo_data = bytearray(self.chipset.read_register(*fifo_read))
                 if fifo_data[0] != len(fifo_data):
@@ -1039,9 +1042,9 @@ class Device(device.Device):
 
     def send_rsp_recv_cmd(self, target, data, timeout):
         # print("\n".join(self._print_ciu_register_page(0, 1)))
-        if target.tt3_cmd:
-            return self._tt3_send_rsp_recv_cmd(target, data, timeout)
         try:
+            if target.tt3_cmd:
+                return self._tt3_send_rsp_recv_cmd(target, data, timeout)
             if data:
                 self.chipset.tg_response_to_initiator(data)
             return self.chipset.tg_get_initiator_command(timeout)
